@@ -369,8 +369,13 @@ def unannotated(src, item, ed, spec, loops_done=(), closures_done=()):
             continue
         out.append(f"{n.get('loop_kind', 'a')} loop without an invariant")
     done_c = {tuple(n["range"]) for n in closures_done}
+    ok_pats = spec.get("closures_ok", [])
     for n in nodes_of(item, "closure"):
         if tuple(n["range"]) in done_c or consumed(n):
+            continue
+        # `closures_ok = ["regex", ..]` of the sidecar: closures (by their whitespace-free text) whose result the
+        # contract says nothing about - e.g. one that only builds an error value - need no contract
+        if any(re.search(pt, re.sub(r"\s+", "", src.text(*n["range"]))) for pt in ok_pats):
             continue
         out.append("closure `" + re.sub(r"\s+", " ", src.text(*n["range"]))[:40] + "` without a contract")
     return out
